@@ -207,7 +207,7 @@ func runDir(r *vlib.Run, self string, di, cycles int) {
 		if trig == "during-open" {
 			go func() { time.Sleep(delay); kill() }()
 		}
-		watchdog := time.AfterFunc(120*time.Second, func() { r.Inconclusive("child watchdog fired"); kill() })
+		watchdog := time.AfterFunc(120*time.Second, func() { r.InconclusiveCase("child watchdog fired"); kill() })
 		acks, begins := 0, 0
 		opened := false
 		lastLine := ""
@@ -300,7 +300,7 @@ func runDir(r *vlib.Run, self string, di, cycles int) {
 		vc.Stdout, vc.Stderr = &vout, &verr
 		done := make(chan error, 1)
 		if err := vc.Start(); err != nil {
-			r.Inconclusive("cannot start verifier")
+			r.InconclusiveCase("cannot start verifier")
 			return
 		}
 		go func() { done <- vc.Wait() }()
@@ -308,7 +308,7 @@ func runDir(r *vlib.Run, self string, di, cycles int) {
 		case err = <-done:
 		case <-time.After(180 * time.Second):
 			_ = vc.Process.Kill()
-			r.Inconclusive("verifier watchdog fired")
+			r.InconclusiveCase("verifier watchdog fired")
 			return
 		}
 		vs := vout.String()
